@@ -913,7 +913,7 @@ func (e *jsonEnv) docCasesFor(rng *PRNG, s *JS, n int) []docCase {
 				bs, _ := json.Marshal(c)
 				out = append(out, docCase{"null:" + p.Name, string(bs)})
 			}
-			if ps := e.resolve(p.S); m[p.Name] != nil && rng.Chance(1, 2) {
+			if ps := e.resolve(p.S); m[p.Name] != nil && (i == 0 || rng.Chance(1, 2)) {
 				// a number with an integral value that is not written as an integer literal, where an
 				// integer (or a list of integers) is declared: however it is read, a property given by
 				// reference and its inline copy must read it alike
